@@ -202,6 +202,11 @@ def run(ctx, rep):
     # whitespace set
     ws = S.func(LEX, 'is_whitespace')
     chars = sorted(set(n['code'] for n in find_all(ws['body'], lambda n: n.get('k') == 'lit' and n.get('lit') == 'char')))
+    stm = ws['body']['stmts']
+    pure = len(stm) == 1 and stm[0]['k'] == 's_expr' and stm[0]['expr'].get('k') in ('macro', 'match') and \
+        (stm[0]['expr'].get('name') == 'matches' or stm[0]['expr'].get('k') == 'match')
+    rep.ob(pure, 'R08.2', 'lexer::is_whitespace', 'pure table', 'the whitespace predicate is a single table lookup over character literals '
+           '(any other control flow in front of the table can take code points out of it)', 'src/lexer.rs:%d' % ws['line'])
     rep.ob(chars == PATTERN_WHITE_SPACE, 'R08.2', 'lexer::is_whitespace', 'Pattern_White_Space', 'whitespace is exactly the 11 code points: %s' % [hex(c) for c in chars], 'src/lexer.rs:%d' % ws['line'])
 
     # ---- R08.3 -------------------------------------------------------------------------------
@@ -345,3 +350,24 @@ def eval_delta(e, escaped, ch, lets=None):
             return s_ == ('some', p['elems'][0]['lit']['value'])
         return None
     return None
+
+
+def check_layout(ctx, rep, rule):
+    """whitespace predicate is the pure 11-code-point table; whitespace and `//` arms restart the scan"""
+    S = ctx.syn()
+    lt = tables.lexer_table(ctx)
+    ws = S.func(LEX, 'is_whitespace')
+    chars = sorted(set(n['code'] for n in find_all(ws['body'], lambda n: n.get('k') == 'lit' and n.get('lit') == 'char')))
+    stm = ws['body']['stmts']
+    pure = len(stm) == 1 and stm[0]['k'] == 's_expr' and (stm[0]['expr'].get('name') == 'matches' or stm[0]['expr'].get('k') == 'match')
+    rep.ob(pure and chars == PATTERN_WHITE_SPACE, rule, 'lexer::is_whitespace', 'whitespace table', 'a single table lookup over exactly the 11 Pattern_White_Space code points (pure=%s, %d code points)' % (pure, len(chars)), 'src/lexer.rs:%d' % ws['line'])
+    wsarm = [a for a in lt['arms'] if a['kind'] == 'class' and 'is_whitespace' in (a['guard'] or '')]
+    rep.ob(len(wsarm) == 1 and [o[1] for o in wsarm[0]['outcomes']] == ['<skip>'], rule, 'lexer::Tokenizer::next', 'whitespace arm', 'whitespace restarts the scan without producing a token', 'src/lexer.rs')
+    cm = [a for a in lt['arms'] if a.get('char') == '/']
+    okc = False
+    if cm:
+        outs = {lx: tok for lx, tok, _ in cm[0]['outcomes']}
+        okc = outs.get('//') == '<skip>' and outs.get('/') == 'Slash'
+        cl = find_all(cm[0]['body'], lambda n: n.get('k') == 'closure')
+        okc = okc and len(cl) == 1 and render(cl[0]['body']) == "c != '\\n'"
+    rep.ob(okc, rule, 'lexer::Tokenizer::next', 'comment arm', '`//` skips exactly to the next line feed (the predicate is `c != \'\\n\'`, independent of escapes) and restarts', 'src/lexer.rs')
